@@ -192,6 +192,9 @@ pub enum VerifEvent {
         window_limited: bool,
         data_in_flight: bool,
     },
+    /// The retransmission timer was found expired by the send path (the datagram that follows in
+    /// this poll, if any, is timer-driven).
+    RetransmitTimerExpired { id: VsockId },
     /// State of the socket dispatcher's tables at the start of one loop iteration.
     SocketTables {
         local: SocketAddr,
